@@ -1,4 +1,6 @@
-"""C20 — remote logging routing + log file rotation: implementation driver, case encoder, direct oracle"""
+"""C20 — remote logging routing + log file rotation: implementation driver, case encoder, direct oracle.
+Three kinds of cases: 'route' (sequential histories), 'rot' (log file rotation), 'conc' (several real threads under forced
+interleavings at the granularity of the dict operations on the subscription table; driver in harness/c20conc.py)"""
 import itertools
 import json
 import random
@@ -10,7 +12,7 @@ ID = 'C20'
 MODEL_TARGETS = ['theories/C20/Run.vo']
 PROOF_TARGETS = ['theories/C20/Properties.vo']
 PROPERTIES_V = 'theories/C20/Properties.v'
-IMPORTS = 'Require Import FV.Gen.C20 FV.C20.Model FV.C20.Run.'
+IMPORTS = 'Require Import FV.Gen.C20 FV.C20.Model FV.C20.ConcModel FV.C20.Run.'
 CASE_TYPE = 'case'
 CHECK = 'check_case'
 SHARD_SIZE = 300
@@ -21,8 +23,16 @@ RULE = ('routing: histories of {logging <module|.|""|None|unknown> <level>, emit
         'rotation: real LogfileHandler in a temp dir (time.strftime of mlzlog patched), directories of 0..9 dated files, '
         'foreign files / sub-directories / links and directories named like old log files / future-dated files, retention 0..10, '
         '1..5 successive doRollover calls. '
-        'non-trivial: a routing history with at least one delivery, a rotation with at least one rollover; '
-        'distinct = distinct case contents')
+        'concurrent: the same real objects operated by 2..5 real threads under the deterministic scheduler harness/dsched.py: one '
+        'thread per connection (logging requests and *IDN? through handle_request = under the dispatcher lock, '
+        'remove_connection without it) and module threads emitting records; switch points before every dict operation on '
+        'RemoteLogHandler.subscriptions (recording dict subclasses installed on the handler instance; __hash__ of the fake '
+        'connections used as keys; next() of the items() iterator in handle; acquire and release of Dispatcher._lock); '
+        'schedules: seeded sticky-random choice sequences, and for three two-thread scenarios (close vs enable, close vs off, '
+        'close vs emit) EVERY interleaving; each run is compared with the model operation by operation, then a probe sweep; '
+        'non-trivial: a routing history with at least one delivery, a rotation with at least one rollover, a concurrent run '
+        'in which at least two threads executed operations; distinct = distinct case contents (concurrent: distinct '
+        'threads + executed interleaving)')
 ASSUMPTIONS = [
     'module loggers are children of a logger carrying the RemoteLogHandler (mlzlog getChild copies the handlers), so the '
     'lookup in Module.setRemoteLogging always finds it; the last dotted component of a module logger name is the module name',
@@ -32,7 +42,18 @@ ASSUMPTIONS = [
     'file system: os.remove of a regular file succeeds; log file names are <root>-YYYY-MM-DD.log with a zero padded date, '
     'so that name order is date order; no entry named `current` is a directory; the file of the day, if it exists, is a '
     'regular file',
-    'one request at a time (Dispatcher.handle_request holds its lock); records are emitted between requests',
+    'sequential cases: one request at a time, records are emitted between requests',
+    'concurrent cases: every connection is served by ONE thread (requests, *IDN? and the final remove_connection of a connection '
+    'are ordered, as in frappy.protocol.interface where handle() and finish() run in the thread of the connection); threads are '
+    'interleaved at dict-operation granularity: every in-place operation of a builtin dict (setdefault, item assignment, pop, '
+    'subscript, next of an items() iterator) is atomic (CPython, GIL); preemption inside such an operation is not explored',
+    'concurrent cases: WHAT a dict iterator yields while other threads modify the dict (incl. RuntimeError: dictionary changed '
+    'size during iteration, which then propagates into the logging call of the module thread) is CPython behaviour and enters '
+    'the model as data; the model checks every yielded item against its table and decides the delivery; the oracle judges '
+    'deliveries during the concurrent phase only for soundness (no message without a matching choice) and the state after '
+    'all threads finished exactly; a record missed by a subscriber because the iteration was aborted is outside the quantifier '
+    'of the property (sequences) and not reported',
+    'concurrent cases: records below DEBUG are not emitted by module threads (the logger drops them before the handler)',
 ]
 
 # the level table of the specification (SECoP logging extension as implemented by frappy): name -> python level number
@@ -47,7 +68,8 @@ def _exc_name(e):
     return type(e).__name__
 
 
-def run_route(case):
+def build_node(case, conn_class=None, handler_hook=None):
+    """a real Dispatcher + RemoteLogHandler + Modules with fake connections -> (dispatcher, connections, modules, frappy.logging)"""
     import logging
     import mlzlog
     import frappy.logging as flog
@@ -92,6 +114,10 @@ def run_route(case):
     root = mlzlog.MLZLogger(ROOT)
     root.setLevel(logging.DEBUG)
     flog.init_remote_logging(root)
+    if handler_hook is not None:
+        for h in root.handlers:
+            if isinstance(h, flog.RemoteLogHandler):
+                handler_hook(h)
     srv = Srv(root)
     mods = {}
     for n in case['mods']:
@@ -99,43 +125,64 @@ def run_route(case):
         srv.secnode.add_module(m, n)
         mods[n] = m
     disp = srv.dispatcher
-    conns = [Conn(i) for i in range(case['nconn'])]
+    conns = [(conn_class or Conn)(i) for i in range(case['nconn'])]
     for c in conns:
         disp.add_connection(c)
+    return disp, conns, mods, flog
+
+
+def exec_op(disp, conns, mods, op, idx):
+    """one operation on the real objects -> (exception class name, reply, python level name of an emitted record)"""
+    import logging
+    exc = None
+    reply = None
+    pyname = None
+    try:
+        if op[0] == 'log':
+            reply = disp.handle_request(conns[op[1]], ('logging', op[2], op[3]))
+        elif op[0] == 'idn':
+            reply = disp.handle_request(conns[op[1]], ('*IDN?', None, None))
+        elif op[0] == 'disc':
+            disp.remove_connection(conns[op[1]])
+        elif op[0] == 'emit':
+            pyname = logging.getLevelName(op[2]).lower()      # record.levelname.lower(), CPython data for the model
+            mods[op[1]].log.log(op[2], 'e%d', idx)
+        else:
+            raise AssertionError(op)
+    except Exception as e:
+        exc = _exc_name(e)
+    return exc, (None if reply is None else [reply[0], json.loads(json.dumps(reply[1], default=repr))]), pyname
+
+
+def collect(conns):
+    """the messages every connection got since the last call"""
+    sent = []
+    for c in conns:
+        msgs = []
+        for msg in c.got:
+            try:
+                action, spec, data = msg
+                modname, _, lev = spec.partition(':')
+                msgs.append([action, modname, lev, data])
+            except Exception:
+                msgs.append(['?', repr(msg), '', None])
+        c.got = []
+        sent.append(msgs)
+    return sent
+
+
+def run_route(case):
+    disp, conns, mods, flog = build_node(case)
     steps = []
     for idx, op in enumerate(case['ops']):
-        exc = None
-        reply = None
-        pyname = None
-        try:
-            if op[0] == 'log':
-                reply = disp.handle_request(conns[op[1]], ('logging', op[2], op[3]))
-            elif op[0] == 'idn':
-                reply = disp.handle_request(conns[op[1]], ('*IDN?', None, None))
-            elif op[0] == 'disc':
-                disp.remove_connection(conns[op[1]])
-            elif op[0] == 'emit':
-                pyname = logging.getLevelName(op[2]).lower()      # record.levelname.lower(), CPython data for the model
-                mods[op[1]].log.log(op[2], 'e%d', idx)
-            else:
-                raise AssertionError(op)
-        except Exception as e:
-            exc = _exc_name(e)
-        sent = []
-        for c in conns:
-            msgs = []
-            for msg in c.got:
-                try:
-                    action, spec, data = msg
-                    modname, _, lev = spec.partition(':')
-                    msgs.append([action, modname, lev, data])
-                except Exception:
-                    msgs.append(['?', repr(msg), '', None])
-            c.got = []
-            sent.append(msgs)
-        steps.append({'exc': exc, 'sent': sent, 'pyname': pyname,
-                      'reply': None if reply is None else [reply[0], json.loads(json.dumps(reply[1], default=repr))]})
+        exc, reply, pyname = exec_op(disp, conns, mods, op, idx)
+        steps.append({'exc': exc, 'sent': collect(conns), 'pyname': pyname, 'reply': reply})
     return {'steps': steps, 'levels': [[k, v] for k, v in flog.LOG_LEVELS.items()]}
+
+
+def run_conc(case):
+    from harness import c20conc
+    return c20conc.run_conc(case, build_node, exec_op, collect)
 
 
 def run_rot(case):
@@ -221,13 +268,54 @@ def run_rot(case):
 def run_case(case):
     if case['kind'] == 'route':
         return run_route(case)
+    if case['kind'] == 'conc':
+        return run_conc(case)
     return run_rot(case)
 
 
 # ------------------------------------------------------------------ encoding into Gallina
+KNOWN_NAMES = {'debug': 's_debug', 'info': 's_info', 'warning': 's_warning', 'error': 's_error', 'off': 's_off',
+               'comlog': 's_comlog'}
+DATED_RE = re.compile(r'^(.+)-(\d{4})-(\d{2})-(\d{2})\.log$')
+
+
+class _StrTable:
+    """strings of a case are encoded once (`let s3 : name := [...] in`) and referred to by name: the shard files are
+    dominated by the time coqc needs to read string literals"""
+
+    def __init__(self):
+        self.t = {}
+        self.lets = []
+
+    def __call__(self, s):
+        if s in KNOWN_NAMES:
+            return KNOWN_NAMES[s]           # constants of Model.v with exactly these code points
+        if s not in self.t:
+            m = DATED_RE.match(s)
+            d = DATE_RE.match(s)
+            if m and not m.group(1).endswith('-'):
+                # "<root>-YYYY-MM-DD.log": Run.dlog rebuilds exactly this string
+                rhs = f'dlog {self(m.group(1))} {gal.N(int(m.group(2)))} {gal.N(int(m.group(3)))} {gal.N(int(m.group(4)))}'
+            elif d:
+                y, mo, dd = s.split('-')
+                rhs = f'date_str {gal.N(int(y))} {gal.N(int(mo))} {gal.N(int(dd))}'
+            else:
+                rhs = gal.string(s)
+            self.t[s] = f's{len(self.t)}'
+            self.lets.append((self.t[s], rhs))
+        return self.t[s]
+
+
+_senc = [gal.string]
+
+
+def gstr(s):
+    return _senc[0](s)
+
+
 def enc_level(v):
     if isinstance(v, str):
-        return f'(LStr {gal.string(v.lower())})'
+        return f'(LStr {gstr(v.lower())})'
     if isinstance(v, bool):
         return f'(LNum {gal.z(int(v))})'
     if isinstance(v, int):
@@ -243,9 +331,9 @@ def enc_level(v):
 
 def enc_op(op, pyname=None):
     if op[0] == 'log':
-        return f'(OLogging {gal.nat(op[1])} {gal.option(op[2], gal.string)} {enc_level(op[3])})'
+        return f'(OLogging {gal.nat(op[1])} {gal.option(op[2], gstr)} {enc_level(op[3])})'
     if op[0] == 'emit':
-        return f'(OEmit {gal.string(op[1])} {gal.z(op[2])} {gal.string(pyname or "")})'
+        return f'(OEmit {gstr(op[1])} {gal.z(op[2])} {gstr(pyname or "")})'
     if op[0] == 'idn':
         return f'(OIdent {gal.nat(op[1])})'
     return f'(ODisconnect {gal.nat(op[1])})'
@@ -255,29 +343,151 @@ EXC = {None: 'None', 'ValueError': '(Some XValue)', 'TypeError': '(Some XType)',
 
 
 def enc_entry(e):
-    return '{| e_name := %s; e_file := %s |}' % (gal.string(e[0]), gal.boolean(bool(e[1])))
+    return '(%s %s)' % ('ef' if e[1] else 'ed', gstr(e[0]))
+
+
+STD_LEVELS = [['debug', 10], ['info', 20], ['warning', 30], ['error', 40], ['off', 99], ['comlog', 15]]
+
+
+def enc_levels(levels):
+    if [list(x) for x in levels] == STD_LEVELS:
+        return 'std_levels'          # the same literal, defined once in Run.v
+    return gal.lst(levels, lambda p: gal.pair(p, gstr, gal.z))
+
+
+def enc_robs(steps):
+    robs = []
+    for s in steps:
+        sent = []
+        for i, msgs in enumerate(s['sent']):
+            if not msgs:
+                continue     # robs_ok compares the listed connections and the total number of messages
+            # a message that is not a log event can not be produced by the model: encode it as an impossible one
+            ml = [gal.pair((m[1] if m[0] == 'log' else '?' + m[1], m[2]), gstr, gstr) for m in msgs]
+            sent.append(f'({gal.nat(i)}, [{"; ".join(ml)}])')
+        if s['exc'] is None and not sent:
+            robs.append('r0')
+        else:
+            robs.append('(rb %s [%s])' % (EXC.get(s['exc'], '(Some XOther)'), '; '.join(sent)))
+    return '[' + '; '.join(robs) + ']'
+
+
+def enc_ops(ops, steps):
+    return '[' + '; '.join(enc_op(o, st.get('pyname')) for o, st in zip(ops, steps)) + ']'
+
+
+MEXC = {None: 'None', 'ValueError': '(Some EValue)', 'TypeError': '(Some EType)', 'KeyError': '(Some EKey)'}
+
+
+def _isnat(v):
+    return isinstance(v, int) and not isinstance(v, bool) and v >= 0
+
+
+def _isint(v):
+    return isinstance(v, int) and not isinstance(v, bool)
+
+
+def enc_event(ev, recs_of):
+    """one observed atomic operation -> (thread, aop); anything the model has no step for becomes ABad"""
+    tid, kind = ev[0], ev[1]
+    t = gal.nat(tid if _isnat(tid) else 999)
+    a = 'ABad'
+    if kind == 'acq':
+        a = 'AAcq'
+    elif kind == 'rel':
+        a = f'(ARel {MEXC[ev[2]]})' if ev[2] in MEXC else 'ABad'
+    elif kind == 'sd':
+        a = f'(ATab (TSetDefault {gstr(ev[2])}))'
+    elif kind == 'set' and _isnat(ev[3]) and _isint(ev[4]):
+        a = f'(ATab (TSet {gstr(ev[2])} {gal.nat(ev[3])} {gal.z(ev[4])}))'
+    elif kind == 'pop' and _isnat(ev[3]):
+        a = f'(ATab (TPop {gstr(ev[2])} {gal.nat(ev[3])}))'
+    elif kind == 'get':
+        a = f'(AGet {gstr(ev[2])} {gal.boolean(bool(ev[3]))})'
+    elif kind == 'next' and _isnat(ev[3]) and _isint(ev[4]):
+        rec = recs_of(tid)
+        if rec is not None:
+            sent = ev[5]
+            if not sent:
+                sn = 'None'
+            elif len(sent) == 1 and sent[0][0] == ev[3] and sent[0][1] == 'log' and sent[0][2] == ev[2]:
+                sn = f'(Some {gstr(sent[0][3])})'
+            else:
+                sn = f'(Some {gstr("?")})'
+            a = (f'(ANext {gstr(ev[2])} {gal.z(rec[1])} {gstr(rec[2])} {gal.nat(ev[3])} {gal.z(ev[4])} {sn})')
+    elif kind == 'end':
+        a = f'(AEnd {gal.boolean(bool(ev[3]))})'
+    return t, a
+
+
+def enc_conc(case, obs):
+    # the record a reader step of an emitting thread belongs to: the one of its latest lookup (`get`) event
+    gets = {}
+    recs = {}
+    for k, th in enumerate(case['threads']):
+        if 'emit' in th:
+            res = obs['results'][k]
+            recs[k] = [[m, lv, (res[j].get('pyname') if j < len(res) else None) or ''] for j, (m, lv) in enumerate(th['emit'])]
+    def rec_of(t):
+        if t in recs and 0 <= gets.get(t, 0) - 1 < len(recs[t]):
+            return recs[t][gets[t] - 1]
+        return None
+
+    events = []
+    for ev in obs['events']:
+        if ev[1] == 'get' and ev[0] in recs:
+            gets[ev[0]] = gets.get(ev[0], 0) + 1
+        events.append(enc_event(ev, rec_of))
+    threads = []
+    for k, th in enumerate(case['threads']):
+        if 'conn' in th:
+            steps = [{'pyname': None}] * len(th['ops'])
+            excs = '[' + '; '.join(EXC.get(r['exc'], '(Some XOther)') for r in obs['results'][k]) + ']'
+            threads.append(f'TConn {enc_ops(th["ops"], steps)} {excs}')
+        else:
+            prog = '[' + '; '.join(a for (_, a), ev in zip(events, obs['events']) if ev[0] == k) + ']'
+            rl = '[' + '; '.join(f'({gstr(m)}, {gal.z(lv)}, {gstr(py)})' for m, lv, py in recs[k]) + ']'
+            threads.append(f'TEmit {rl} {prog}')
+    table = []
+    for ent in obs['table']:
+        m, l = ent
+        if isinstance(l, list) and all(_isnat(c) and _isint(v) for c, v in l):
+            table.append('(%s, [%s])' % (gstr(m), '; '.join(f'({gal.nat(c)}, {gal.z(v)})' for c, v in l)))
+        else:
+            table.append('(%s, [(999%%nat, 0%%Z)])' % gstr('?' + m))
+    return 'CConc %s %s %s %s [%s] [%s] [%s] %s %s' % (
+        enc_levels(obs['levels']),
+        gal.lst(case['mods'], gstr),
+        enc_ops(case['pre'], obs['pre']), enc_robs(obs['pre']),
+        '; '.join(threads), '; '.join(f'({t}, {a})' for t, a in events), '; '.join(table),
+        enc_ops(case['sweep'], obs['sweep']), enc_robs(obs['sweep']))
 
 
 def encode(case, obs):
+    tab = _StrTable()
+    _senc[0] = tab
+    try:
+        body = encode_body(case, obs)
+    finally:
+        _senc[0] = gal.string
+    lets = ''.join(f'let {v} : name := {rhs} in ' for v, rhs in tab.lets)
+    return f'({lets}{body})'
+
+
+def encode_body(case, obs):
+    if case['kind'] == 'conc':
+        return enc_conc(case, obs)
     if case['kind'] == 'route':
-        robs = []
-        for s in obs['steps']:
-            sent = []
-            for i, msgs in enumerate(s['sent']):
-                # a message that is not a log event can not be produced by the model: encode it as an impossible one
-                ml = [gal.pair((m[1] if m[0] == 'log' else '?' + m[1], m[2]), gal.string, gal.string) for m in msgs]
-                sent.append(f'({gal.nat(i)}, [{"; ".join(ml)}])')
-            robs.append('{| r_exc := %s; r_sent := [%s] |}' % (EXC.get(s['exc'], '(Some XOther)'), '; '.join(sent)))
-        return 'CRoute %s %s %s [%s]' % (
-            gal.lst(obs['levels'], lambda p: gal.pair(p, gal.string, gal.z)),
-            gal.lst(case['mods'], gal.string),
-            '[' + '; '.join(enc_op(o, st.get('pyname')) for o, st in zip(case['ops'], obs['steps'])) + ']', '; '.join(robs))
+        return 'CRoute %s %s %s %s' % (
+            enc_levels(obs['levels']),
+            gal.lst(case['mods'], gstr),
+            enc_ops(case['ops'], obs['steps']), enc_robs(obs['steps']))
     steps = ['{| s_date := %s; s_raised := %s; s_listing := %s |}' % (
-        gal.string(s['date']), gal.boolean(s['exc'] is not None), gal.lst(s['listing'], enc_entry))
+        gstr(s['date']), gal.boolean(s['exc'] is not None), gal.lst(s['listing'], enc_entry))
         for s in obs['steps']]
     init = [[n, k == 'f'] for n, k in case['entries']]
     return 'CRot %s %s %s %s %s [%s]' % (
-        gal.string(case['root']), gal.nat(case['max_days']), gal.lst(init, enc_entry), gal.string(case['date0']),
+        gstr(case['root']), gal.nat(case['max_days']), gal.lst(init, enc_entry), gstr(case['date0']),
         gal.lst(obs['listing0'], enc_entry), '; '.join(steps))
 
 
@@ -395,7 +605,81 @@ def oracle_rot(case, obs):
     return fails
 
 
+def conn_threads(case):
+    return [(k, th) for k, th in enumerate(case['threads']) if 'conn' in th]
+
+
+def oracle_conc(case, obs):
+    """the property on a concurrent run.  Every connection is served by one thread, so its own requests / *IDN? / close are
+    ordered; nothing another connection does may change what it receives.  Hence: AFTER ALL THREADS FINISHED a connection
+    receives a record exactly when its own latest accepted choice for the module is a level at or below the record's level
+    (a closed connection: nothing) -- checked by the probe sweep, with the sequential oracle on the history
+    `pre + the operations of every connection thread + sweep` (the order among different connections does not matter
+    to it).  WHILE the threads run: a message needs a level the connection had before or chose in its own thread."""
+    fails = []
+
+    def fail(cls, what, **kw):
+        fails.append(dict({'class': cls, 'what': what}, **kw))
+
+    if obs['status'] != 'ok' or obs['thread_errors'] or obs['main_error']:
+        fail('concurrent-run-incomplete', f'threads did not finish: status {obs["status"]}, errors {obs["thread_errors"]} '
+             f'{obs["main_error"]}')
+        return fails
+    seen = set()
+    for _, th in conn_threads(case):
+        if th['conn'] in seen or any(o[1] != th['conn'] for o in th['ops']):
+            return fails          # not a case of this layer (one thread per connection): no judgement
+        seen.add(th['conn'])
+    nothing = [[] for _ in range(case['nconn'])]
+    ops = list(case['pre'])
+    steps = list(obs['pre'])
+    for k, th in conn_threads(case):
+        if len(obs['results'][k]) != len(th['ops']):
+            fail('concurrent-run-incomplete', f'thread {k} executed {len(obs["results"][k])} of {len(th["ops"])} operations')
+            return fails
+        ops += th['ops']
+        steps += [{'exc': r['exc'], 'sent': nothing, 'pyname': None} for r in obs['results'][k]]
+    n_before = len(ops)
+    ops += case['sweep']
+    steps += obs['sweep']
+    for f in oracle_route({'mods': case['mods'], 'nconn': case['nconn'], 'ops': ops}, {'steps': steps}):
+        where = 'after all threads finished' if f.get('op', 0) >= n_before else 'request of a thread'
+        fails.append(dict(f, what=f'[{where}] ' + f['what']))
+    # messages sent while the threads ran
+    records = {}
+    for k, th in enumerate(case['threads']):
+        for j, (m, lv) in enumerate(th.get('emit', [])):
+            records[f'e{1000 * (k + 1) + j}'] = (m, lv)
+    for c, msgs in enumerate(obs['during']):
+        levels = {}         # module -> levels the connection had at some time
+        hist = [o for o in case['pre'] if o[0] == 'log' and o[1] == c]
+        for _, th in conn_threads(case):
+            if th['conn'] == c:
+                hist += [o for o in th['ops'] if o[0] == 'log']
+        for o in hist:
+            sl = spec_level(o[3])
+            if sl is None:
+                continue
+            num = SPEC_LEVELS[o[3].lower()] if isinstance(o[3], str) else int(o[3])
+            for m in (case['mods'] if o[2] in (None, '', '.') else [o[2]]):
+                levels.setdefault(m, set()).add(num)
+        got = set()
+        for msg in msgs:
+            rec = records.get(msg[3]) if isinstance(msg[3], str) else None
+            if msg[0] != 'log' or rec is None or rec[0] != msg[1] or (rec[1] in SPEC_NAMES and SPEC_NAMES[rec[1]] != msg[2]) \
+                    or msg[3] in got:
+                fail('wrong-message', f'while the threads ran connection {c} got {msg}', conn=c)
+                continue
+            got.add(msg[3])
+            if not any(x <= rec[1] for x in levels.get(rec[0], ())):
+                fail('spurious-delivery', f'while the threads ran connection {c} got {msg} although it never chose a level '
+                     f'<= {rec[1]} for {rec[0]} (levels it ever chose: {sorted(levels.get(rec[0], ()))})', conn=c)
+    return fails
+
+
 def oracle(case, obs):
+    if case['kind'] == 'conc':
+        return oracle_conc(case, obs)
     return oracle_route(case, obs) if case['kind'] == 'route' else oracle_rot(case, obs)
 
 
@@ -404,7 +688,17 @@ FINDING_CLASSIFIERS = {
 }
 
 
+def _runs(tids):
+    """number of maximal runs of equal thread numbers"""
+    return sum(1 for i, t in enumerate(tids) if i == 0 or tids[i - 1] != t)
+
+
 def nontrivial_key(case, obs):
+    if case['kind'] == 'conc':
+        tids = [e[0] for e in obs['events']]
+        if len(set(tids)) < 2:
+            return None
+        return json.dumps([case['mods'], case['pre'], case['threads'], tids], sort_keys=True)
     if case['kind'] == 'route':
         if not any(any(s['sent']) for s in obs['steps']):
             return None
@@ -416,6 +710,31 @@ def nontrivial_key(case, obs):
 
 def outcome_labels(case, obs):
     labs = set()
+    if case['kind'] == 'conc':
+        labs.add('conc')
+        ev = obs['events']
+        tids = [e[0] for e in ev]
+        if _runs(tids) > len(set(tids)):
+            labs.add('conc-preempted-inside-an-operation-sequence')
+        owner = None
+        for e in ev:
+            if e[1] == 'acq':
+                owner = e[0]
+            elif e[1] == 'rel':
+                owner = None
+            elif e[1] in ('sd', 'set', 'pop') and owner is not None and e[0] != owner:
+                labs.add('conc-close-writes-while-a-request-holds-the-lock')
+            elif e[1] == 'end' and e[3]:
+                labs.add('conc-emit-raised-' + str(e[4]))
+            elif e[1] == 'next' and e[5]:
+                labs.add('conc-delivered-while-threads-run')
+            elif e[1] == 'bad':
+                labs.add('conc-unmodelled-operation')
+        if obs['status'] != 'ok':
+            labs.add('conc-status-' + obs['status'])
+        if any(any(x) for st in obs['sweep'] for x in st['sent']):
+            labs.add('conc-delivered-after-threads')
+        return sorted(labs)
     if case['kind'] == 'route':
         labs.add('route')
         for op, s in zip(case['ops'], obs['steps']):
@@ -439,6 +758,9 @@ def outcome_labels(case, obs):
 
 
 def sample_repr(case, obs):
+    if case['kind'] == 'conc':
+        return {'case': dict(case, sweep='<every module x every named level>'), 'status': obs['status'],
+                'events': obs['events'][:40], 'table_after_threads': obs['table']}
     if case['kind'] == 'route':
         return {'case': case, 'per_op': [[s['exc'], s['sent']] for s in obs['steps']][:8]}
     return {'case': case, 'listing0': [e[0] for e in obs['listing0']],
@@ -547,10 +869,96 @@ def exhaustive_rot():
                        'date0': day(4), 'dates': [day(5), day(6)]}
 
 
+# ---- concurrent layer: threads x interleavings
+# records below DEBUG never reach the handler (level of the root logger, as set by MainLogger.init): not emitted by module threads
+CONC_EMIT = [lv for lv in EMIT_LEVELS if lv >= 10]
+CONC_LEVELS = VALID * 6 + ['DEBUG', 'Off', 'foo', '', 10, 20, 99, 25, 30.0, None, [10]]
+
+
+def rand_order(rng, nthreads, n):
+    stick = rng.choice([0.0, 0.3, 0.6, 0.8])
+    cur = rng.randrange(nthreads)
+    order = []
+    for _ in range(n):
+        if rng.random() >= stick:
+            cur = rng.randrange(nthreads)
+        order.append(cur)
+    return order
+
+
+def rand_conc(rng):
+    mods = rng.sample(MOD_POOL, rng.choice([1, 1, 2, 2, 3]))
+    nconn = rng.randint(2, 3)
+    specs = mods * 3 + ['', '.', None]
+
+    def log_op(c):
+        spec = 'nomod' if rng.random() < 0.04 else rng.choice(specs)
+        return ['log', c, spec, rng.choice(CONC_LEVELS)]
+
+    pre = [log_op(rng.randrange(nconn)) for _ in range(rng.randint(0, 4))]
+    threads = []
+    for c in rng.sample(range(nconn), rng.randint(2, nconn)):
+        ops = []
+        for _ in range(rng.randint(1, 3)):
+            r = rng.random()
+            ops.append(log_op(c) if r < 0.6 else ['idn', c] if r < 0.68 else ['disc', c])
+        threads.append({'conn': c, 'ops': ops})
+    for _ in range(rng.choice([0, 0, 1, 1, 2])):
+        threads.append({'emit': [[rng.choice(mods), rng.choice(CONC_EMIT)] for _ in range(rng.randint(1, 2))]})
+    rng.shuffle(threads)
+    return {'kind': 'conc', 'mods': mods, 'nconn': nconn, 'pre': pre, 'threads': threads,
+            'sched': {'order': rand_order(rng, len(threads), 90)}, 'sweep': sweep(mods)}
+
+
+def perms(counts):
+    """all sequences containing counts[i] times the number i"""
+    if not any(counts):
+        yield []
+        return
+    for i, n in enumerate(counts):
+        if n:
+            rest = list(counts)
+            rest[i] -= 1
+            for p in perms(rest):
+                yield [i] + p
+
+
+# scenario templates: (modules, connections, pre, threads, steps of every thread on the real code)
+def templates():
+    # connection 0 closes while connection 1 enables the module connection 0 had enabled (the classic lost update)
+    yield (['m0'], 2, [['log', 0, 'm0', 'debug']],
+           [{'conn': 0, 'ops': [['disc', 0]]}, {'conn': 1, 'ops': [['log', 1, 'm0', 'info']]}], [4, 5])
+    # connection 1 switches off while connection 0 re-identifies
+    yield (['m0'], 2, [['log', 0, 'm0', 'debug'], ['log', 1, 'm0', 'info']],
+           [{'conn': 0, 'ops': [['disc', 0]]}, {'conn': 1, 'ops': [['log', 1, 'm0', 'off']]}], [4, 5])
+    # a record is being handled while a connection closes
+    yield (['m0'], 2, [['log', 0, 'm0', 'debug'], ['log', 1, 'm0', 'info']],
+           [{'conn': 0, 'ops': [['disc', 0]]}, {'emit': [['m0', 20]]}], [4, 5])
+
+
+def template_cases(full):
+    for mods, nconn, pre, threads, counts in templates():
+        for order in perms(counts):
+            yield {'kind': 'conc', 'mods': mods, 'nconn': nconn, 'pre': pre, 'threads': threads,
+                   'sched': {'order': order}, 'sweep': sweep(mods)}
+    if full:
+        # two modules, all modules addressed: every interleaving of close and request
+        mods = ['m0', 'm1']
+        pre = [['log', 0, '.', 'debug']]
+        threads = [{'conn': 0, 'ops': [['disc', 0]]}, {'conn': 1, 'ops': [['log', 1, '.', 'warning']]}]
+        for order in perms([6, 7]):
+            yield {'kind': 'conc', 'mods': mods, 'nconn': 2, 'pre': pre, 'threads': threads,
+                   'sched': {'order': order}, 'sweep': sweep(mods)}
+
+
 def gen_cases(seed, tier):
     rng = random.Random(seed * 1000003 + 20)
     n_route, n_rot = {'quick': (2500, 1200), 'thorough': (20000, 8000), 'search': (20000, 8000)}[tier]
-    cases = [rand_route(rng) for _ in range(n_route)]
+    n_conc = {'quick': 400, 'thorough': 6000, 'search': 6000}[tier]
+    crng = random.Random(seed * 7001 + 2020)
+    cases = [rand_conc(crng) for _ in range(n_conc)]
+    cases += list(template_cases(tier != 'quick'))
+    cases += [rand_route(rng) for _ in range(n_route)]
     cases += [rand_rot(rng) for _ in range(n_rot)]
     depths = (1, 2) if tier == 'quick' else (1, 2, 3, 4)
     for d in depths:
@@ -559,7 +967,43 @@ def gen_cases(seed, tier):
     return cases
 
 
+def shrink_conc(case):
+    ths = case['threads']
+    if len(ths) > 1:
+        for i in range(len(ths) - 1, -1, -1):
+            # drop thread i: the schedule entries keep naming the same threads
+            order = [x - (x > i) for x in case['sched'].get('order', []) if x != i]
+            yield dict(case, threads=ths[:i] + ths[i + 1:], sched={'order': order})
+    for i, th in enumerate(ths):
+        key = 'ops' if 'conn' in th else 'emit'
+        if len(th[key]) > 1:
+            for j in range(len(th[key]) - 1, -1, -1):
+                yield dict(case, threads=ths[:i] + [dict(th, **{key: th[key][:j] + th[key][j + 1:]})] + ths[i + 1:])
+    for i in range(len(case['pre']) - 1, -1, -1):
+        yield dict(case, pre=case['pre'][:i] + case['pre'][i + 1:])
+    used = set()
+    for o in case['pre'] + [o for th in ths for o in th.get('ops', [])]:
+        if o[0] == 'log':
+            used.add(o[2])
+    for th in ths:
+        used.update(m for m, _ in th.get('emit', []))
+    if not used & {None, '', '.'}:
+        for m in case['mods'][1:] if case['mods'][0] in used else case['mods'][:1]:
+            if m not in used and len(case['mods']) > 1:
+                mods = [x for x in case['mods'] if x != m]
+                yield dict(case, mods=mods, sweep=sweep(mods))
+    order = case['sched'].get('order', [])
+    if order:
+        yield dict(case, sched={'order': order[:len(order) // 2]})
+        yield dict(case, sched={'order': order[:-1]})
+        for i in range(min(len(order), 24) - 1, -1, -1):
+            yield dict(case, sched={'order': order[:i] + order[i + 1:]})
+
+
 def shrink(case):
+    if case['kind'] == 'conc':
+        yield from shrink_conc(case)
+        return
     if case['kind'] == 'route':
         ops = case['ops']
         for i in range(len(ops) - 1, -1, -1):
